@@ -73,7 +73,11 @@ class PlaceholderSubstitutor(CopyMapper):
 
     def __init__(self, substitutions: Mapping[str, Array]) -> None:
         # Ignoring function cache, since we don't support functions anyway
-        super().__init__()
+        #
+        # A parameter may be bound to a caller's placeholder that equals it
+        # (same name, shape and dtype): replacing one by the other is the
+        # point of this mapper, not a "mapper-created duplicate".
+        super().__init__(err_on_created_duplicate=False)
         self.substitutions = substitutions
 
     def map_placeholder(self, expr: Placeholder) -> Array:
